@@ -234,6 +234,78 @@ fn run(case: &Case, out: &mut Out) {
                         s.delivered.len(), s.sent_good.len()));
                 }
             }
+            // shrink the channel socket's send buffer to the kernel minimum
+            "sndbuf" => {
+                let s = st_.as_mut().unwrap();
+                let v: libc::c_int = 1;
+                unsafe {
+                    libc::setsockopt(s.chan.fd(), libc::SOL_SOCKET, libc::SO_SNDBUF,
+                        &v as *const _ as *const libc::c_void, std::mem::size_of::<libc::c_int>() as u32);
+                }
+                out.obs(&[]);
+            }
+            // writable() without draining the peer (back-pressure)
+            "writable_p" => {
+                let s = st_.as_mut().unwrap();
+                let r = s.chan.writable();
+                let mut t = match &r {
+                    Ok(n) => vec![ts("ok"), tn(*n)],
+                    Err(e) => vec![ts("err"), ts(err_name(e))],
+                };
+                t.extend(st(&s.chan));
+                out.obs(&t);
+            }
+            "peer_read" => {
+                let s = st_.as_mut().unwrap();
+                let want = a[0].n() as usize;
+                let mut got = vec![0u8; want];
+                let mut n = 0;
+                while n < want {
+                    match s.peer.read(&mut got[n..]) {
+                        Ok(0) => break,
+                        Ok(k) => n += k,
+                        Err(_) => break,
+                    }
+                }
+                got.truncate(n);
+                s.peer_got.extend_from_slice(&got);
+                out.obs(&[tb(&got)]);
+            }
+            // the peer reads everything while WRITABLE events keep coming: every
+            // framed message accepted by write_message must reach the peer intact
+            "flush_check" => {
+                let s = st_.as_mut().unwrap();
+                let mut tmp = [0u8; 65536];
+                for _ in 0..10000 {
+                    loop {
+                        match s.peer.read(&mut tmp) {
+                            Ok(0) => break,
+                            Ok(n) => s.peer_got.extend_from_slice(&tmp[..n]),
+                            Err(_) => break,
+                        }
+                    }
+                    if s.chan.back_buf.available_data() == 0 {
+                        break;
+                    }
+                    s.chan.handle_events(Ready::WRITABLE);
+                    s.chan.interest.insert(Ready::WRITABLE);
+                    let _ = s.chan.writable();
+                }
+                loop {
+                    match s.peer.read(&mut tmp) {
+                        Ok(0) => break,
+                        Ok(n) => s.peer_got.extend_from_slice(&tmp[..n]),
+                        Err(_) => break,
+                    }
+                }
+                if s.peer_got != s.written {
+                    out.viol("write-lost", &format!(
+                        "peer received {} bytes, {} bytes of framed messages were accepted by write_message{}",
+                        s.peer_got.len(), s.written.len(),
+                        if s.peer_got.len() == s.written.len() { " (content differs)" } else { "" }));
+                }
+                out.obs(&[]);
+            }
             // blocking-mode read with a short timeout (all bytes the case sends are
             // already in the socket, so it never waits unless the frame is incomplete)
             "read_b" => {
